@@ -320,18 +320,34 @@ def r4(ctx):
     cfg = ctx.cfg(oc)
     defs = [(s, v) for s, v in util.assignments_to(oc.node, "master_block") if isinstance(v, ast.AST)]
     nn = [(s, v) for s, v in defs if not (isinstance(v, ast.Constant) and v.value is None)]
-    ctx.require(len(nn) == 2, "expected two non-None definitions of master_block")
+    ctx.require(len(nn) >= 1, "no non-None definition of master_block")
+    covered = set()
     for s, v in nn:
         ga = guard_atoms(cfg, cfg.node_of(s))
         ok = ("1 < len(family)", True) in ga and ("genetic_haplotyping", True) in ga
         ctx.ob(oc.qual, "master-block-guard:%s" % u(v)[:50], ok, oc.loc(s), "a master block exists only for a real family with genetic haplotyping enabled" if ok else "master_block = %s is not guarded by len(family) > 1 and genetic_haplotyping" % u(v))
+        trusted_forms = ("sorted(set(homozygous_positions).intersection(accessible_positions_set))", "sorted(accessible_positions_set.intersection(homozygous_positions))", "sorted(set(homozygous_positions) & accessible_positions_set)", "sorted(accessible_positions_set & set(homozygous_positions))")
         if ("distrust_genotypes", True) in ga:
+            mode = "distrust"
             okv = u(v) == "sorted(hom_in_any_sample)"
             why = "under --distrust-genotypes the block is the re-derived homozygous set"
-        else:
-            okv = u(v) in ("sorted(set(homozygous_positions).intersection(accessible_positions_set))", "sorted(accessible_positions_set.intersection(homozygous_positions))", "sorted(set(homozygous_positions) & accessible_positions_set)")
+            covered.add(True)
+        elif ("distrust_genotypes", False) in ga:
+            mode = "trusted"
+            okv = u(v) in trusted_forms
             why = "the block is homozygous ∩ accessible"
-        ctx.ob(oc.qual, "master-block-value:%s" % ("distrust" if ("distrust_genotypes", True) in ga else "trusted"), okv, oc.loc(s), why if okv else "master_block = %s" % u(v))
+            covered.add(False)
+        else:
+            # one definition for both modes: under --distrust-genotypes the solver may have changed genotypes, so a block
+            # taken from the input's homozygous positions is wrong there
+            mode = "both"
+            covered |= {True, False}
+            okv = False if "homozygous_positions" in u(v) else None
+            why = "master_block = %s" % u(v)
+        ctx.ob(oc.qual, "master-block-value:%s" % mode, okv, oc.loc(s), why if okv else ("master_block = %s also under --distrust-genotypes, where the homozygous sites have to be re-derived from the phasing result" % u(v) if mode == "both" else "master_block = %s" % u(v)))
+    for m_, nm_ in ((True, "distrust"), (False, "trusted")):
+        if m_ not in covered:
+            ctx.ob(oc.qual, "master-block-value:%s" % nm_, False, oc.loc(), "no master block is defined %s --distrust-genotypes" % ("under" if m_ else "without"))
     none0 = [(s, v) for s, v in defs if isinstance(v, ast.Constant) and v.value is None]
     ctx.ob(oc.qual, "no-master-block-by-default", len(none0) == 1, oc.loc(), "master_block starts as None" if none0 else "master_block has no None default")
     fcs = [c for c in ctx.prog.calls_in(oc.node) if u(c.func) == "find_components"]
